@@ -213,6 +213,9 @@ def snippet(z, /, t, n):
         ):
             t = round(t)
 
+    if isinstance(t, np.integer):
+        t = int(t)  # t + n must not wrap around in a narrow integer type
+
     if (t < 0) or (len(z) < t + n):
         raise ValueError("Requested snippet goes out of bounds.")
 
